@@ -115,6 +115,62 @@ func ruleC07Sync(c *Ctx) {
 			c.Bad(rule, FnName(fn)+" | structure", "", "expected one reloadAndVerify call", nil)
 		}
 	}
+	c.Floor(rule, 1)
+}
+
+// ruleC09Register: replica side of the bootstrap.
+func ruleC09Register(c *Ctx) {
+	const rule = "C09-REGISTER"
+	c.Doc(rule, "sync.(*Task).AddReplica (replica side): while the volume has no replica, the replica registers before EVERY wait for an action (the controller forgets a registration after a failed start signal / liveness probe and relies on the replica registering again); the registration carries the replica's own revision count, UUID and previous state; on action start it calls Start with its own address")
+	fn := c.Anchor(rule, fTask+"AddReplica")
+	if fn == nil {
+		return
+	}
+	R := NewRenderer(fn)
+	reg := CallsTo(fn, fCC+"Register")
+	var sels []ssa.Instruction
+	eachInstr(fn, func(in ssa.Instruction) {
+		if _, ok := in.(*ssa.Select); ok {
+			sels = append(sels, in)
+		}
+	})
+	if len(reg) != 1 || len(sels) != 1 {
+		c.Bad(rule, FnName(fn)+" | structure", "", "expected one Register call and one select waiting for the action", nil)
+		return
+	}
+	ws := Query{Fn: fn, IsSite: func(in ssa.Instruction) bool { return in == sels[0] },
+		Gen: func(in ssa.Instruction) bool { return in == reg[0] }, Kill: func(in ssa.Instruction) bool { return in == sels[0] }}.Run()
+	if len(ws) == 0 {
+		c.OK(rule, FnName(fn)+" | registers before every wait", c.P.InstrPos(reg[0]), "each arrival at the select is preceded by a Register call of the same round", true)
+	} else {
+		c.Bad(rule, FnName(fn)+" | registers before every wait", c.P.InstrPos(sels[0]), "the wait for an action can be re-entered without registering again: a replica the controller has forgotten never comes back", c.witness(ws[0]))
+	}
+	got := callRender(R, reg[0])
+	if strings.Contains(got, fRep+"GetRevisionCounter(replica.CreateTempReplica($2)#0)") && strings.Contains(got, ".UUID") && strings.Contains(got, "PrevStatus(") {
+		c.OK(rule, FnName(fn)+" | registers its own revision count, UUID and previous state", c.P.InstrPos(reg[0]), "", false)
+	} else {
+		c.Bad(rule, FnName(fn)+" | registers its own revision count, UUID and previous state", c.P.InstrPos(reg[0]), "Register is called as "+got, nil)
+	}
+	c.Guard(rule, fn, reg, "register", nil, atom("volume has no replica yet", "+"+fCC+"GetVolume($0.client)#0.ReplicaCount ==0"))
+	st := CallsTo(fn, fCC+"Start")
+	ownAddr := false
+	if len(st) == 1 {
+		for _, in := range st[0].Block().Instrs {
+			if x, ok := in.(*ssa.Store); ok && R.V(x.Addr) == "&&var(varargs)[+0]" && R.V(x.Val) == "$1" {
+				ownAddr = true
+			}
+		}
+	}
+	if len(st) == 1 && ownAddr && callRender(R, st[0]) == fCC+"Start($0.client,&var(varargs)[:])" {
+		c.Guard(rule, fn, st, "start volume", nil, atom("action is start", eqAtom(`"start"`, `phi{"" | select#3}`)))
+	} else {
+		c.Bad(rule, FnName(fn)+" | starts with its own address", "", "expected t.client.Start(replicaAddress)", nil)
+	}
+	c.Floor(rule, 4)
+}
+
+func ruleC07SyncFiles(c *Ctx) {
+	const rule = "C07-SYNC-ORDER"
 	if fn := c.Anchor(rule, fTask+"syncFiles"); fn != nil {
 		R := NewRenderer(fn)
 		sf := CallsTo(fn, fTask+"syncFile")
